@@ -65,6 +65,14 @@ CLAIMED["C16"] = ("Proof (deductive, all 15-digit initial IMSIs, all indices bel
   "Trusted: govc, go/ssa, SMT solvers; assumed library contracts: strconv.Atoi, fmt.Sprintf(\"%0*d\") = the w-digit numeral of n; the link between the integer lemmas and the contract clauses is made by hand (stated in the evidence). IMSIs of 15 digits only (shape).",
   "DESIGN.md §4 C16")
 
+CLAIMED["C05"] = ("Proof (deductive, all K/OP/OPc/RAND/AUTN, all algorithm identifiers, 2- and 3-digit MNC, 15-digit SUPI): DeriveRESstarAndSetKey returns RES* = KDF(CK||IK, 6B||SN||len||RAND||0010||RES||0008)[16:32] "
+  "and installs K_AMF = KDF(K_SEAF, 6D||SUPI||len||0000||0002), K_NASenc/K_NASint = KDF(K_AMF, 69||01|02||0001||alg||0001)[16:32] with K_AUSF (6A) and K_SEAF (6C) in between, CK/IK/RES being f3/f4/f2 of TS 35.206 — "
+  "the spec /verif/spec/kdfspec + milspec is written from TS 33.501 Annex A / TS 33.220 B.2 / TS 35.206 with HMAC-SHA-256 and AES as opaque functions; github.com/wmnsk/milenage is executed in line, i.e. verified together with the caller, not assumed; "
+  "with only OP configured the result equals that for OPc = OP xor E_K(OP). DerivateKamf and DerivateAlgKey have their own contracts (modular).",
+  "Trusted: govc, go/ssa, SMT solvers; assumed library contracts: hex.DecodeString, crypto/hmac+sha256 (= HMAC256), crypto/aes (= AES), regexp for the one SUPI pattern, fmt.Sprintf(%s), binary.*Endian. "
+  "The precondition snName = SNName(mcc, mnc) is discharged at the call site in RegisterUE only under C01 (not claimed yet). SUPIs of 15 digits only (shape).",
+  "DESIGN.md §4 C05")
+
 PENDING = {
 }
 
